@@ -200,6 +200,16 @@ class Run:
             marks = self.hole_marks.get(n, [])
             return bool(marks) and marks[-1][1] is None
 
+        def repeat_failed():
+            # the operand value is not iterable: list() raised before the loop started
+            for n, v in self.values.items():
+                if v is not UNBOUND and v is not None and evals(n) > 0:
+                    try:
+                        iter(v)
+                    except TypeError:
+                        return isinstance(self.raised, TypeError)
+            return False
+
         def exc_is_exception():
             for k, ch in self.children.items():
                 if raised('h%d' % k):
@@ -291,8 +301,12 @@ class Run:
 
         def rlen(k=0):
             for n, v in self.values.items():
-                if isinstance(v, (list, tuple)):
-                    return len(v)
+                if v is UNBOUND or v is None:
+                    continue
+                try:
+                    return len(list(v))
+                except TypeError:
+                    continue
             return 0
 
         lemmas = [l for spec in job.get('loops', {}).values() for l in spec.get('lemmas', [])]
@@ -305,7 +319,8 @@ class Run:
             return eval(step[0].split('==', 1)[1], dict(nsd, _i=i - 1))
 
         nsd = dict(S=S, S0=S0, out=out, out_at=out_at, val=val, evals=evals, holes=holes,
-                   trace=trace, raised=raised, exc_is_exception=exc_is_exception, quoted=quoted,
+                   trace=trace, raised=raised, repeat_failed=repeat_failed,
+                   exc_is_exception=exc_is_exception, quoted=quoted,
                    piece=piece, visible=visible, visible0=visible0, visible_at=visible_at,
                    global_now=global_now, in_local=in_local, scope_frame=scope_frame,
                    handler_calls=handler_calls, handler_configured=handler_configured,
